@@ -19,6 +19,7 @@ type kvGen struct {
 	pool    [][]byte
 	stores  []string // all store names, base first
 	flush   []string // names of flushable / lazy flushable stores
+	lazies  []string // names of the lazy ones
 	tabs    map[string][]byte
 	tabList [][]byte
 	parent  map[string]string
@@ -200,6 +201,11 @@ func (g *kvGen) flushOp(w *bufio.Writer) {
 	if len(g.flush) == 0 {
 		return
 	}
+	if len(g.lazies) > 0 && g.r.Chance(1, 4) {
+		// the real DB is produced before the first flush (as SyncedPool.Initialize does)
+		fmt.Fprintf(w, "init %s\n", g.lazies[g.r.Intn(len(g.lazies))])
+		return
+	}
 	s := g.flush[g.r.Intn(len(g.flush))]
 	switch g.r.Intn(8) {
 	case 0, 1, 2:
@@ -274,6 +280,9 @@ func (g *kvGen) wrap(w *bufio.Writer, name, inner, kind string, p []byte) {
 		if kind == "f" || kind == "lf" {
 			g.flush = append(g.flush, name)
 		}
+		if kind == "lf" {
+			g.lazies = append(g.lazies, name)
+		}
 	}
 	g.stores = append(g.stores, name)
 }
@@ -332,8 +341,15 @@ func genKV(stream string, r *Rand, n int, tier string, w *bufio.Writer) {
 			g.mkPool(stems...)
 			// some flushed / underlying content first
 			pre := r.Intn(6)
+			if kind == "lf" {
+				pre += 2 // a lazily produced DB that already holds data
+			}
 			for i := 0; i < pre; i++ {
 				fmt.Fprintf(w, "put %s %s %s\n", inner, HexOf(g.key()), g.val())
+			}
+			if kind == "lf" && r.Chance(1, 2) {
+				fmt.Fprintf(w, "init f1\n")
+				fmt.Fprintf(w, "iter f1 nil nil\n")
 			}
 			for i := 0; i < nops; i++ {
 				switch x := r.Intn(20); {
@@ -353,13 +369,20 @@ func genKV(stream string, r *Rand, n int, tier string, w *bufio.Writer) {
 			g.wrap(w, "tb", "b", "t", g.relatedPrefix(p1))
 			p3 := g.tablePrefix()
 			g.wrap(w, "tn", "ta", "t", p3)
+			// a sibling sub-table of the same parent, mostly with a prefix of the same length
+			p4 := g.relatedPrefix(p3)
+			if r.Chance(1, 2) && len(p3) > 0 {
+				p4 = append([]byte{}, p3...)
+				p4[len(p4)-1] = alpha[r.Intn(4)]
+			}
+			g.wrap(w, "tm", "ta", "t", p4)
 			if r.Chance(1, 3) {
 				g.wrap(w, "ts", "ta", "s", nil)
 			}
 			if r.Chance(1, 4) {
 				g.wrap(w, "tf", "tn", "f", nil)
 			}
-			g.mkPool(p1, g.tabs["tb"], append(append([]byte{}, p1...), p3...))
+			g.mkPool(p1, g.tabs["tb"], append(append([]byte{}, p1...), p3...), append(append([]byte{}, p1...), p4...))
 			for i := 0; i < nops; i++ {
 				switch x := r.Intn(24); {
 				case x < 2:
